@@ -42,9 +42,10 @@ def titlePool : List Bytes := [s "t", s "a \"q\" b", s "it's", s "(p)", s "x & y
 def codePool : List Bytes := [s "c", s "a b", s "`", s "``x", s "a`b``c", s " x ", s "<&>", s "*e*", s "  ", s "\\n"]
 def uriPool : List Bytes := [s "http://a.b/c", s "https://x.y/?q=1&r=2", s "mailto:a@b.c", s "ftp://h/p%20q", s "a+b.c-d:x"]
 def tagPool : List Bytes := [s "<b>", s "</b>", s "<br/>", s "<a href=\"x\">", s "<!-- c -->", s "<?p?>", s "<x-y z='1'>"]
-def entityPool : List (Bytes × Bytes) := [(s "amp", s "&"), (s "lt", s "<"), (s "#35", s "#"), (s "#x41", s "A"), (s "copy", s "©"), (s "quot", s "\""), (s "auml", s "ä")]
+def entityPool : List (Bytes × Bytes) := [(s "amp", s "&"), (s "lt", s "<"), (s "#35", s "#"), (s "#x41", s "A"), (s "copy", s "©"), (s "quot", s "\""), (s "auml", s "ä"),
+  (s "#x01F600", s "😀"), (s "#0128512", s "😀"), (s "#x10FFFD", [0xF4, 0x8F, 0xBF, 0xBD]), (s "#0000097", s "a"), (s "#X000061", s "a")]
 def infoPool : List Bytes := [[], s "go", s "c++", s "x-y", s "é"]
-def codeLinePool : List Bytes := [s "x", s "  ind", s "a < b && c", s "```", s "~~~", s "*not em*", s "", s "# h", s "- l", s "> q", s "    deep", s "<div>", s "\\e"]
+def codeLinePool : List Bytes := [s "x", s "  ind", s "a < b && c", s "```", s "~~~", s "*not em*", s "", s "# h", s "- l", s "> q", s "    deep", s "<div>", s "\\e", s "``` ", s "~~~~  ", s "````", s "``` x", s "\tt", s "a\tb"]
 def htmlLinePool : List Bytes := [s "<div>", s "</div>", s "<p class=\"c\">", s "*x*", s "text", s "<table><tr>", s "  <td>"]
 def labelPool : List Bytes := [s "l1", s "Lab 2", s "ß", s "x*y"]
 
